@@ -1,0 +1,17 @@
+//go:build verif
+
+package reader
+
+import (
+	clientv3 "go.etcd.io/etcd/client/v3"
+
+	"github.com/milvus-io/milvus/pkg/util/conc"
+)
+
+// VerifWatchPool returns the pool that runs the watch-event callbacks (read-only accessor: lets a monitor wait,
+// without sleeping, until every callback handed to the pool so far has returned).
+func (e *EtcdOp) VerifWatchPool() *conc.Pool[struct{}] { return e.handlerWatchEventPool }
+
+// VerifEtcdClient returns the client the op created for itself (EtcdOp has no Close; a monitor that builds
+// thousands of ops in one process has to close them).
+func (e *EtcdOp) VerifEtcdClient() *clientv3.Client { return e.etcdClient }
